@@ -73,6 +73,9 @@ def _menu(client):
     for d in (-6, -5, -4, -1, 0, 1):
         m.append(("send_headers:N:SIZED%+d:prio" % d, "send_headers_sized", (d, True)))
         m.append(("send_headers:N:SIZED%+d" % d, "send_headers_sized", (d, False)))
+    for d in (1, 200):
+        # on the promised stream 2 (servers): its frame-size limit has to follow the peer's SETTINGS while it is reserved
+        m.append(("send_headers:P2:SIZED%+d" % d, "send_headers_sized_p", (d,)))
     m.append(("altsvc:origin", "advertise_alternative_service", (b"h2=\":443\"", b"example.com", None)))
     m.append(("altsvc:both", "advertise_alternative_service", (b"h2=\":443\"", b"example.com", 1)))
     m.append(("altsvc:strfield", "advertise_alternative_service", ("h2", b"example.com", None)))
@@ -122,14 +125,23 @@ class Spec:
         else:
             self.build = ["rx:H1", "rx:H1e", "rx:H3e", "rx:D1", "rx:D1e", "rx:R1",
                           "l:resp1", "l:resp1e", "l:data1", "l:end1", "l:rst1", "l:push1_2", "l:resp2e",
-                          "cleanup", "l:close", "rx:goaway", "l:setx", "l:badpush1_3"]
+                          "cleanup", "l:close", "rx:goaway", "l:setx", "l:badpush1_3", "rx:mfs-up", "rx:mfs-down"]
 
     def initial(self):
         s = S(self.client, True)
         s.budget = self.dev
         s2 = S(self.client, False)
         s2.budget = self.dev
-        return [("handshaken", s), ("fresh", s2)]
+        out = [("handshaken", s), ("fresh", s2)]
+        if not self.client:
+            # three steps on: a request open, the peer has raised its MAX_FRAME_SIZE, a stream is promised
+            s3 = S(self.client, True)
+            s3.budget = self.dev
+            for lab in ("rx:H1", "rx:mfs-up", "l:push1_2"):
+                step = self.apply(s3, lab)
+                assert not step.violations, lab
+            out.append(("request+large-frames+promise", s3))
+        return out
 
     def actions(self, st):
         acts = list(self.build)
@@ -206,6 +218,8 @@ class Spec:
                 return h.rx([wire.rst_stream(1, 8)], ("rst", 1))
             if a == "PP1_2":
                 return h.rx([wire.push_promise(1, 2, sb(H.REQ))], ("push", 1, 2))
+            if a in ("mfs-up", "mfs-down"):
+                return h.rx([wire.settings([(wire.S_MAX_FRAME_SIZE, 20000 if a == "mfs-up" else 16384)])])
         raise ValueError(lab)
 
     def apply(self, st, lab):
@@ -255,6 +269,11 @@ class Spec:
             method = "send_headers"
             args = (sid, self._hdrs(hl))
             kw = {"priority_weight": 300}
+        elif method == "send_headers_sized_p":
+            (d,) = spec
+            method = "send_headers"
+            F = conn.max_outbound_frame_size
+            args = (2, H.sized_headers(H.RESP, F + d))
         elif method == "send_headers_sized":
             d, prio = spec
             method = "send_headers"
